@@ -254,3 +254,12 @@ M("C18-R1-no-dir-test", "C18", [(S, "                                           
 M("C18-R3-visited-by-given-path", "C18", [(S, "&& !self.visited_dirs.insert(PathBuf::from(&canonical_path))", "&& !self.visited_dirs.insert(dir.to_path_buf())")], ["visited_canonical-key"])
 M("C18-R3-visited-check-removed", "C18", [(S, "        if self.current_follow_symlinks\n            && !self.visited_dirs.insert(PathBuf::from(&canonical_path))\n        {\n            return Ok(());\n        }\n", "        self.visited_dirs.insert(PathBuf::from(&canonical_path));\n")], ["visited_before-listing"])
 M("C18-R4-depth-checked-sub", "C18", [(S, "canonical_depth.saturating_sub(base_depth) + 1", "canonical_depth - base_depth + 1")], ["depth_underflow"])
+
+# ---------------------------------------------------------------- C10-R2 (cursor analysis T)
+M("C10-R2-fields-swallow-error", "C10", [(P, "                            if let Some(field) = self.parse_expr()? {\n                                fields.push(field);\n                            }\n                        }\n                    }\n                }\n                Some(Lexem::Open)", "                            if let Ok(Some(field)) = self.parse_expr() {\n                                fields.push(field);\n                            }\n                        }\n                    }\n                }\n                Some(Lexem::Open)")], ["progress_parse_fields"])
+M("C10-R2-roots-comma-no-break", "C10", [(P, "                            } else {\n                                self.drop_lexem();\n                                break;\n                            }\n                        }\n                        _ => {\n                            if !path.is_empty() {", "                            } else {\n                                self.drop_lexem();\n                            }\n                        }\n                        _ => {\n                            if !path.is_empty() {")], ["progress_parse_roots"])
+M("C10-R2-double-drop", "C10", [(P, "            _ => {\n                self.drop_lexem();\n                Ok(None)\n            }\n        }\n    }\n\n    fn parse_expr", "            _ => {\n                self.drop_lexem();\n                self.drop_lexem();\n                Ok(None)\n            }\n        }\n    }\n\n    fn parse_expr")], ["cursor_underflow", "drop_lexem"])
+M("C10-R2-group-by-no-progress", "C10", [(P, "                            Some(Lexem::RawString(_)) => {\n                                self.drop_lexem();\n                                match self.parse_expr()? {\n                                    Some(group_field) => group_by_fields.push(group_field),", "                            Some(Lexem::RawString(_)) => {\n                                self.drop_lexem();\n                                match self.parse_expr().unwrap_or(None) {\n                                    Some(group_field) => group_by_fields.push(group_field),")], ["progress_parse_group_by", "panic"])
+M("C10-R2-paren-recursion", "C10", [(P, "            Some(Lexem::Open) => {\n                let result = self.parse_expr();\n                if let Some(Lexem::Close) = self.next_lexem() {", "            Some(Lexem::Open) => {\n                self.drop_lexem();\n                let result = self.parse_expr();\n                if let Some(Lexem::Close) = self.next_lexem() {")], ["recursion_", "progress_"])
+M("C10-R2-lexer-operator-no-advance", "C10", [(L, "                    if !self.is_op_char(c) {\n                        break;\n                    }\n\n                    self.char_index += 1;\n                    s.push(c);", "                    if !self.is_op_char(c) {\n                        break;\n                    }\n\n                    s.push(c);")], ["progress_lexer"])
+M("C10-R2-lexer-next-part-no-advance", "C10", [(L, "                    self.input_index += 1;\n                    self.char_index = -1;\n                    self.possible_search_root = false;\n                    continue;", "                    self.char_index = -1;\n                    self.possible_search_root = false;\n                    continue;")], ["progress_lexer"])
